@@ -78,6 +78,7 @@ var DeallocAddr = common.HexToAddress("962cd22a8edf1e4f4e55b4b15ddbfb5d9d541971"
 type RichOpts struct {
 	GasLimit  uint64 // genesis gas limit (default 4712388); raise it for blocks with hundreds of transactions
 	Shifted   bool   // ShiftedConfig instead of TestChainConfig
+	EIP155At  uint64 // when non-zero: replay protection only from this height on (blocks below it must carry unprotected txs)
 	MaxTxs    int  // max transactions per block (default 5)
 	EmptyPct  int  // chance (percent) of an empty block
 	UnclePct  int  // chance (percent) of trying to include uncles
@@ -114,6 +115,11 @@ func NewRichTree(o RichOpts) *RichTree {
 	cfg := params.TestChainConfig
 	if o.Shifted {
 		cfg = ShiftedConfig()
+	}
+	if o.EIP155At != 0 {
+		c := *cfg
+		c.EIP155Block = new(big.Int).SetUint64(o.EIP155At)
+		cfg = &c
 	}
 	if o.MaxTxs == 0 {
 		o.MaxTxs = 5
